@@ -195,3 +195,117 @@ class PrepareNextBlockMPI(_Base):
 
 
 CONTRACTS = [DetermineRestartMPI, PrepareNextBlockMPI]
+
+
+# ------------------------------------------------------------------------------------------ SpreadStepSizesBlockwiseMPI
+SS = 'pySDC/implementations/convergence_controller_classes/spread_step_sizes.py'
+
+
+class SpreadComm(P2PComm):
+    def bcast(self, x, root=0):
+        if isinstance(x, list) and root != self.rank:
+            self.n += 1
+            r = [self.mk.real(f'{self.name}.bc_list{self.n}_{i}') for i in range(len(x))]
+            for v in r:
+                self.mk.assume(v > 0, 'broadcast step sizes are positive')
+            self.log.append(('bcast', self, x, root, r))
+            return r
+        return super().bcast(x, root)
+
+
+class SpreadStepSizesMPI(_Base):
+    """per rank: the step size of the next block is what the rank `spread_from` broadcasts (first restarted rank, or the one with the smallest
+    proposal at or after it, or the last rank when nobody restarts); that rank contributes min(its proposal or its step size, max(dt_max, dt_initial))
+    with dt_max = (Tend - block end time)/size when the run is told to hit Tend exactly; every level of the step gets the broadcast value"""
+
+    name = 'SpreadStepSizesBlockwiseMPI.prepare_next_block'
+    target = (SS, 'SpreadStepSizesBlockwiseMPI.prepare_next_block')
+
+    def instances(self, tier):
+        out = []
+        for r, n in self.rs():
+            for first_restarted in list(range(n)) + [None]:
+                for overwrite in (True, False):
+                    for sffr in (True, False):
+                        out.append(dict(rank=r, size=n, k=first_restarted, overwrite=overwrite, spread_from_first_restarted=sffr))
+        return out
+
+    def build(self, inst, mk):
+        st = self.get(mk, inst)
+        S = st.S
+        r, n, k = inst['rank'], inst['size'], inst['k']
+        C = next(c for c in st.real_ccs if type(c).__name__ == 'SpreadStepSizesBlockwiseMPI')
+        st.C = C
+        C.params.overwrite_to_reach_Tend = inst['overwrite']
+        C.params.spread_from_first_restarted = inst['spread_from_first_restarted']
+        comm = SpreadComm(r, n, mk, st.log, name='active')
+        st.comm = comm
+        L = S.levels[0]
+        L.params.dt = mk.real('dt_mine')
+        L.status.dt_new = mk.real('dt_new_mine')
+        mk.assume(L.params.dt > 0, 'dt>0')
+        mk.assume(L.status.dt_new > 0, 'proposal>0')
+        L.params.dt_initial = mk.real('dt_initial')
+        st.dt, st.dt_new, st.dt_initial = L.params.dt, L.status.dt_new, L.params.dt_initial
+        S.status.restart = k is not None and r >= k
+        st.others_new = {}
+
+        def allgather(x):
+            if isinstance(x, (bool, np.bool_)):
+                vals = [(k is not None and j >= k) for j in range(n)]
+            else:
+                vals = []
+                for j in range(n):
+                    if j == r:
+                        vals.append(x)
+                    else:
+                        v = mk.real(f'dt_new_of_rank{j}')
+                        mk.assume(v > 0, 'proposal>0')
+                        st.others_new[j] = v
+                        vals.append(v)
+            st.log.append(('allgather', x, vals))
+            return vals
+
+        comm.allgather = allgather
+        st.tend, st.Tend = mk.real('tend'), mk.real('Tend')
+        st.call = lambda: C.prepare_next_block(st.c, S, n, st.tend, st.Tend, comm=comm)
+        return st
+
+    def post(self, st, old, result, exc):
+        S, inst, log = st.S, st.inst, st.log
+        r, n, k = inst['rank'], inst['size'], inst['k']
+        yield 'returns_normally', exc is None
+        if exc is not None:
+            return
+        ag = [e for e in log if e[0] == 'allgather']
+        yield 'restart_flags_and_proposals_gathered', len(ag) == 2 and ag[0][1] is S.status.restart and ag[1][1] is st.dt_new
+        if len(ag) != 2:
+            return
+        props = ag[1][2]
+        restart_at = k if k is not None else n - 1
+        if k is None or inst['spread_from_first_restarted']:
+            src = restart_at
+        else:
+            # the (first) rank with the smallest proposal among the restarted ones, decided on this path
+            src = restart_at + min(range(n - restart_at), key=lambda j: (not all(bool(props[restart_at + j] <= props[restart_at + i]) for i in range(n - restart_at)), j))
+        bl = [e for e in log if e[0] == 'bcast' and isinstance(e[2], list)]
+        yield 'step_sizes_broadcast_from_the_spreading_rank', len(bl) == 1 and bl[0][3] == src
+        if len(bl) != 1:
+            return
+        if inst['overwrite']:
+            bs = [e for e in log if e[0] == 'bcast' and not isinstance(e[2], list)]
+            yield 'limit_to_reach_Tend_broadcast_from_the_restart_rank', len(bs) == 1 and bs[0][3] == restart_at and bool(seq(bs[0][2], (st.Tend - st.tend) / n)) is True
+            dt_max = bs[0][4] if bs else None
+        else:
+            dt_max = None
+        if r == src:
+            cap = sym.smax([dt_max, st.dt_initial]) if dt_max is not None else None
+            want = sym.smin([st.dt_new, cap]) if cap is not None else st.dt_new
+            yield 'spreading_rank_contributes_its_limited_proposal', seq(bl[0][2][0], want)
+        yield 'every_level_gets_the_broadcast_step_size', And(*[seq(L.params.dt, bl[0][4][i]) for i, L in enumerate(S.levels)])
+
+    def canary(self, st, old, result, exc):
+        yield 'canary:step_size_unchanged', seq(st.S.levels[0].params.dt, st.dt)
+
+
+CONTRACTS = [DetermineRestartMPI, PrepareNextBlockMPI, SpreadStepSizesMPI]
